@@ -42,20 +42,23 @@ type Source struct {
 	Err      error // error to deliver (io.EOF by default)
 	WithData bool  // deliver the error together with the final chunk
 	Sched    int
-	ZeroMax  int // max consecutive (0,nil) reads injected (progress-guaranteeing), 0 = none
+	ZeroMax  int  // max consecutive (0,nil) reads injected (progress-guaranteeing), 0 = none
 	Endless0 bool // return (0,nil) forever once position reaches ErrAt (no-progress scenario)
 	Yield    bool
-	R        *rand.Rand
+	// Churn, when set, is called inside every Read before data is delivered: a hostile reader that
+	// itself uses the shared buffer pool (takes, scribbles and returns buffers).
+	Churn func()
+	R     *rand.Rand
 
-	Pos      int
-	Calls    int
-	Budget   int // max Read calls; exceeded => Exhausted
-	Exhausted bool
+	Pos          int
+	Calls        int
+	Budget       int // max Read calls; exceeded => Exhausted
+	Exhausted    bool
 	ErrDelivered bool
-	ZeroReads int
-	zeroRun  int
-	MaxAsk   int
-	Trace    func(format string, a ...interface{})
+	ZeroReads    int
+	zeroRun      int
+	MaxAsk       int
+	Trace        func(format string, a ...interface{})
 }
 
 // NewSource builds a position-coded source of n bytes.
@@ -67,6 +70,9 @@ func (s *Source) Read(p []byte) (int, error) {
 	s.Calls++
 	if s.Yield {
 		runtime.Gosched()
+	}
+	if s.Churn != nil {
+		s.Churn()
 	}
 	if len(p) > s.MaxAsk {
 		s.MaxAsk = len(p)
@@ -160,8 +166,10 @@ type Sink struct {
 	FailAt int // 1-based index of the Write call that fails; 0 = never
 	Err    error
 	Calls  int
-	Short  bool // failing write reports a short count
-	Yield  bool
+	// FailMode selects what the failing Write reports: 0 -> (0, err), 1 -> (len(p), err)
+	// (consumed everything, then failed), 2 -> (len(p)/2, err)
+	FailMode int
+	Yield    bool
 }
 
 func (s *Sink) Write(p []byte) (int, error) {
@@ -173,6 +181,12 @@ func (s *Sink) Write(p []byte) (int, error) {
 		e := s.Err
 		if e == nil {
 			e = ErrCustom
+		}
+		switch s.FailMode {
+		case 1:
+			return len(p), e
+		case 2:
+			return len(p) / 2, e
 		}
 		return 0, e
 	}
